@@ -66,6 +66,11 @@ def gen_model(rnd, tier='quick'):
     ids = rnd.sample(range(-3, 12), n)
     if rnd.random() < 0.35 and 0 not in ids:
         ids[0] = 0
+    if rnd.random() < 0.25:
+        # integer ids of any size: beyond the small-int cache, beyond what a float holds exactly, far negative
+        big_ = rnd.sample([300, 1000, 257, -6, -1000, 10 ** 6, 2 ** 53 + 1, 2 ** 63 + 5, -(2 ** 53) - 3], min(n, rnd.randint(1, 4)))
+        for j_, v_ in zip(rnd.sample(range(n), len(big_)), big_):
+            ids[j_] = v_
     customs = rnd.sample(CUSTOM_NAMES, rnd.randint(0, 3))
     tasks = []
     for k in ids:
